@@ -119,7 +119,11 @@ var c07Gens = []struct {
 	{5, true, true, true, true}, {5, true, true, false, true}, {5, true, false, true, true}}
 
 // phantom blocklists of the table: nothing, every IPv4 phantom subnet, every IPv6 phantom subnet
-var c07Blocklists = [][]string{nil, {"192.122.0.0/16"}, {"2001:48a8:687f::/48"}}
+// (3 and 4: the same two sets of phantoms as 1 and 2, configured the way an operator may write them: several prefixes none of
+// which ends on a byte boundary, white space around entries, an IPv4 network in its IPv4-mapped IPv6 spelling. They cover
+// every phantom subnet of their family and the "inside" overrides, not the "outside" ones — exactly like 1 and 2.)
+var c07Blocklists = [][]string{nil, {"192.122.0.0/16"}, {"2001:48a8:687f::/48"},
+	{" 192.122.184.0/22", "192.122.192.0/22\t", "::ffff:192.122.188.0/118"}, {"2001:48A8:687f:0:0::/61\n", "\u00a02001:48a8:687f:8::/63"}}
 
 // registrant encodings (new entries are appended: the index is part of the replay format)
 var c07Registrants = []struct {
@@ -452,7 +456,7 @@ func c07ParseReplay(s string) (c07Station, c07Cell, error) {
 		c.disableOv, c.dup = f[9] == "1", num(f[10])
 	}
 	if c.registrant < 0 || c.registrant >= len(c07Registrants) || c.source < 0 || c.source >= len(c07Sources) || c.transport < 0 || c.transport >= len(c07Transports) ||
-		c.gen < 0 || c.gen >= len(c07Gens) || c.covert < 0 || c.covert >= len(c07Coverts) || c.override < 0 || c.override >= len(c07Overrides) || c.dup < 0 || c.dup >= c07DupKinds || st.block < 0 || st.block > 2 {
+		c.gen < 0 || c.gen >= len(c07Gens) || c.covert < 0 || c.covert >= len(c07Coverts) || c.override < 0 || c.override >= len(c07Overrides) || c.dup < 0 || c.dup >= c07DupKinds || st.block < 0 || st.block >= len(c07Blocklists) {
 		return st, c, fmt.Errorf("bad replay %q: index out of range", s)
 	}
 	return st, c, nil
@@ -1206,17 +1210,19 @@ func (w *c07World) runCell(st c07Station, c c07Cell, secret []byte) (string, str
 	return model, impl
 }
 
+// the station's phantom_blocklist for the model line: the configured strings themselves (`t<hex of the text>`); the model parses
+// them (CJ.IngestText.phantomBlocklist)
 func c07BlocklistLine(block int) string {
 	var s []string
 	for _, cidr := range c07Blocklists[block] {
-		_, n, err := net.ParseCIDR(cidr)
-		if err != nil {
-			panic(err)
-		}
-		ones, _ := n.Mask.Size()
-		s = append(s, fmt.Sprintf("%s/%d", hex.EncodeToString(n.IP), ones))
+		s = append(s, "t"+hex.EncodeToString([]byte(cidr)))
 	}
 	return strings.Join(s, " ")
+}
+
+// the station's covert lists for the model line of the sequences: `<covert_blocklist_subnets>;<covert_allowlist_subnets>`
+func c07CovertPolicyLine() string {
+	return "t" + hex.EncodeToString([]byte(c07CovertBlocklist)) + ";"
 }
 
 // ---------------------------------------------------------------------------------------------
@@ -1279,9 +1285,9 @@ func c07Expect(st c07Station, c c07Cell, v6 bool) c07Want {
 	built := w.why == ""
 	blocked := false
 	if v6 {
-		blocked = st.block == 2 && (ov.v6 == nil || ov.v6Inside)
+		blocked = (st.block == 2 || st.block == 4) && (ov.v6 == nil || ov.v6Inside)
 	} else {
-		blocked = st.block == 1 && (!ov.v4Applied() || ov.v4Inside)
+		blocked = (st.block == 1 || st.block == 3) && (!ov.v4Applied() || ov.v4Inside)
 	}
 	detector := c07Sources[c.source] == pb.RegistrationSource_Detector
 	fail(!blocked, "phantom not blocklisted")
@@ -1482,7 +1488,7 @@ func (w *c07World) oraclePass(st c07Station, c c07Cell, fams [2]c07Fam, pass, pr
 
 func c07InCIDRs(cidrs []string, ip net.IP) bool {
 	for _, c := range cidrs {
-		_, n, err := net.ParseCIDR(c)
+		_, n, err := net.ParseCIDR(strings.TrimSpace(c))
 		if err != nil {
 			panic(err)
 		}
@@ -1671,7 +1677,7 @@ func (w *c07World) runSeq(st c07Station, msgs []c07Msg, secrets [][]byte, cache 
 	for _, sec := range secrets {
 		replay += "/" + hex.EncodeToString(sec)
 	}
-	cfgLine := fmt.Sprintf("%s,%s,%s,%d %d,%s", vlib.B(st.e4), vlib.B(st.e6), vlib.B(st.share), int(pb.TransportType_Min), int(pb.TransportType_Prefix), c07BlocklistLine(st.block))
+	cfgLine := fmt.Sprintf("%s,%s,%s,%d %d,%s", vlib.B(st.e4), vlib.B(st.e6), vlib.B(st.share), int(pb.TransportType_Min), int(pb.TransportType_Prefix), c07BlocklistLine(st.block)) + "," + c07CovertPolicyLine()
 	model := "c07s|" + cfgLine
 	var impls []string
 	var hist []c07Event
@@ -2204,6 +2210,17 @@ func TestVerifC07(t *testing.T) {
 		out.Count(fmt.Sprintf("second-message:%d", c.dup))
 	}
 
+	// ---- the phantom blocklist from its configured text (zz_verif_c07_text_test.go): ParseBlocklists + IsBlocklistedPhantom
+	w.runBlocklistTexts(r)
+	// stations whose phantom blocklist is written with prefixes that end inside a byte, spaced entries and an IPv4-mapped
+	// spelling (c07Blocklists 3, 4): they take part in the one-condition slice and in the sequences
+	var textStations []c07Station
+	for _, block := range []int{3, 4} {
+		for _, live := range []bool{false, true} {
+			textStations = append(textStations, c07Station{e4: true, e6: true, share: true, block: block, live: live})
+		}
+	}
+
 	// corpus first: the dual-stack message for a generation without IPv6 subnets (and its mirror)
 	base := c07Cell{payload: true, v4s: true, v6s: true, registrant: 1, source: 0, transport: 0, gen: 1, libver: 4, covert: 0}
 	for _, g := range []int{1, 2} {
@@ -2310,7 +2327,7 @@ func TestVerifC07(t *testing.T) {
 	// family support) ONE dimension is moved through ALL its values, on every station; then every kind
 	// of second message on the base cells. This mirrors the flip_* lemmas one to one and reaches every
 	// value of every dimension in the quick tier.
-	for _, st := range stations {
+	for _, st := range append(append([]c07Station{}, stations...), textStations...) {
 		for _, sup := range [][2]bool{{true, true}, {true, false}, {false, true}} {
 			for _, baseSrc := range []int{0, 1} {
 				b := c07Cell{payload: true, v4s: sup[0], v6s: sup[1], registrant: 1, source: baseSrc, transport: 0, gen: 0, libver: 4, covert: 0}
@@ -2385,6 +2402,11 @@ func TestVerifC07(t *testing.T) {
 			continue // the liveness verdict is per message here
 		}
 		if thorough || seqCore(st) {
+			seqStations = append(seqStations, st)
+		}
+	}
+	for _, st := range textStations {
+		if !st.live {
 			seqStations = append(seqStations, st)
 		}
 	}
@@ -2597,6 +2619,10 @@ func c07Replay(w *c07World, path string) {
 		w.t.Fatal(err)
 	}
 	for _, line := range strings.Split(string(b), "\n") {
+		if strings.HasPrefix(line, "c07bl|") {
+			w.replayBlocklist(line)
+			continue
+		}
 		if strings.HasPrefix(line, "c07conc|") {
 			p := strings.Split(strings.TrimPrefix(line, "c07conc|"), "/")
 			if len(p) != 4 {
